@@ -11,7 +11,8 @@ answered with (definitions of SimbodyModel/C11.lean at `K := Float`)
   O ke       ½ Σ ~V M V
   O mom      Σ Phi(r) M V                      (6)
   O power    Σ ~V (M A + b)                    (not for energyC: constrained systems)
-  O momrate  Σ Phi(r) (M A + b)                (energyF only: free-floating systems)
+  O momrate  Σ Phi(r) (M A + b)                (not for energyC; the harness side is the applied forces about the
+                                                Ground origin plus, for ground-attached trees, the base mobilizer reactions)
 -/
 open Proto C04 C11
 
@@ -47,8 +48,7 @@ def handle (kind : String) (toks : List String) : List String :=
   let power := (List.zipWith (fun x f => SV.dot x.V f) bs fin).foldl (· + ·) 0
   let momrate := svSum (List.zipWith (fun x f => phi x.r f) bs fin)
   [fmtFloats "O ke" [ke], fmtFloats "O mom" (SV.toList mom)]
-    ++ (if kind == "energyC" then [] else [fmtFloats "O power" [power]])
-    ++ (if kind == "energyF" then [fmtFloats "O momrate" (SV.toList momrate)] else [])
+    ++ (if kind == "energyC" then [] else [fmtFloats "O power" [power], fmtFloats "O momrate" (SV.toList momrate)])
 
 def main : IO Unit := do
   let lines ← readStdinLines
